@@ -99,13 +99,17 @@ def sim_sources():
     return [os.path.join(SIM, f) for f in sorted(os.listdir(SIM)) if f.endswith((".c", ".h"))]
 
 
+UBSAN = "bounds,null,object-size,pointer-overflow,vla-bound,nonnull-attribute,returns-nonnull-attribute,unreachable,return"
+
 FLAVOURS = {
     # name: (cc, cflags for janet, cflags for sim objects, ldflags)
     "plain": ("gcc", ["-O2", "-g"], ["-O2", "-g"], []),
-    "asan": ("clang", ["-O1", "-g", "-fsanitize=address,undefined", "-fno-sanitize-recover=undefined",
+    # UBSan is restricted to the memory-related checks (the properties speak about memory errors,
+    # not about e.g. float->int conversion of NaN, which Janet does in a few places)
+    "asan": ("clang", ["-O1", "-g", "-fsanitize=address," + UBSAN, "-fno-sanitize-recover=" + UBSAN,
                        "-fno-omit-frame-pointer", "-DJANET_DEBUG"],
              ["-O1", "-g", "-fsanitize=address", "-fno-omit-frame-pointer"],
-             ["-fsanitize=address,undefined"]),
+             ["-fsanitize=address," + UBSAN]),
     "tsan": ("clang", ["-O1", "-g", "-fsanitize=thread", "-fno-omit-frame-pointer"],
              ["-O1", "-g"],  # scheduler objects are NOT instrumented: hand-over invisible to TSan
              ["-fsanitize=thread"]),
